@@ -287,14 +287,53 @@ def main():
     store = make_store(payload["store"], rec)
     dds.set_store(store)
     out = []
+    # other ways of using dds than an importable package: the (single) module is run as the __main__ script of this
+    # process, or its source is executed as a notebook cell of an IPython shell (functions then live in __main__)
+    usage = payload.get("usage")
+    shell = None
+
+    def load_main(modname):
+        path = os.path.join(payload["root"], payload["pkg"], modname + ".py")
+        src = open(path).read()
+        if usage == "script":
+            import linecache
+            linecache.checkcache(path)
+            exec(compile(src, path, "exec"), sys.modules["__main__"].__dict__)
+        else:
+            res_ = shell.run_cell(src)
+            if res_.error_in_exec is not None or res_.error_before_exec is not None:
+                raise RuntimeError("cell failed: %r %r" % (res_.error_before_exec, res_.error_in_exec))
+    if usage == "notebook":
+        from IPython.core.interactiveshell import InteractiveShell
+        shell = InteractiveShell.instance()
+    if usage:
+        load_main(payload["main_module"])
     for act in payload["actions"]:
         a = act["a"]
         del rec[:]
         del logmod.LOG[:]
         res = {}
         try:
-            if a == "call":
-                mod = importlib.import_module(payload["pkg"] + "." + act["mod"]) if act["mod"] != "__main__" else sys.modules["__main__"]
+            if usage and a == "reprog":
+                import progs
+                newp = act["prog"]
+                newp["root"] = tuple(newp["root"])
+                for m in newp["modules"].values():
+                    for f in m["funcs"]:
+                        for st in f["stmts"]:
+                            if "callee" in st:
+                                st["callee"] = tuple(st["callee"])
+                progs.write_package(newp, payload["root"])
+                load_main(payload["main_module"])
+                res["out"] = "ok:N"
+            elif a == "call":
+                if usage == "notebook":
+                    import types
+                    mod = types.SimpleNamespace(**shell.user_ns)
+                elif usage == "script":
+                    mod = sys.modules["__main__"]
+                else:
+                    mod = importlib.import_module(payload["pkg"] + "." + act["mod"]) if act["mod"] != "__main__" else sys.modules["__main__"]
                 fn = getattr(mod, act["fn"])
                 pos = [build(x) for x in act.get("pos", [])]
                 kw = dict((n, build(x)) for n, x in act.get("kw", []))
